@@ -28,7 +28,7 @@ PROP = "C08"
 N = {"quick": 500, "thorough": 30000}
 WORKERS = {"quick": 4, "thorough": 16}
 TIMEOUT = {"quick": 240, "thorough": 1000}
-CASE_TIMEOUT = 60.0
+CASE_TIMEOUT = 180.0
 RULE = ("seeded interleavings of 1-30 operations set0 / add0 / shift(d) / get(i) over the "
         "time-step and the iterate storage (also both in one write) and 1-3 names; depth d "
         "changes within a history (1..5, None); 60 % of the histories run on a plain data "
